@@ -260,7 +260,9 @@ def gen_history(rng, kind, row):
     top = min(n, 250)
     v = rng.randrange(30, top - 30)
     wide, narrow = (v, v - 20, v + 20), (v, v - 3, v + 3)
-    tmpl = rng.randrange(10)
+    tmpl = rng.randrange(11)
+    if kind == "schedule" and row["switch"] and tmpl == 9:
+        tmpl = 10      # the value mapping below would turn the refused overlapping calls into accepted ones
 
     def call(raw, retries=1, between=()):
         """a call that runs to its end; `between[i]` = reports arriving after attempt i+1"""
@@ -289,6 +291,10 @@ def gen_history(rng, kind, row):
         evs = [("R", wide)] + call(v + 10, 2, [[(v + 10, v - 3, v + 3)]]) + call(v + 9) + call(v + 3)
     elif tmpl == 8:    # reports between attempts that keep the value inside the bounds; several retries
         evs = [("R", wide)] + call(v + 10, 3, [[(v, v - 15, v + 15)], [(v, v - 12, v + 30)]]) + call(v + 25)
+    elif tmpl == 9:    # a second set, out of range / equal to the held value, WHILE the first call is in flight
+        first = call(v + 10, 3)
+        evs = ([("R", wide)] + first[:1] + [("S", shown(kind, row, v + 25), 1), first[1], ("S", shown(kind, row, v - 30), 2),
+                                            ("S", shown(kind, row, v + 10), 1)] + first[2:] + call(v + 11))
     else:              # random walk
         cur = wide
         evs = [("R", cur)]
@@ -376,6 +382,27 @@ async def run_histories(ctx, res, only=None):
                         steps.append(dict(ev="R", obs="-", last_report=list(last)))
                         if task is not None:
                             reports_in_call.append(list(last))
+                    elif ev[0] == "S" and task is not None:
+                        # a second call while one is in flight: must return at once (refused / no-op) and touch nothing
+                        val, retries = ev[1], ev[2]
+                        p = w.device(label).data[row["name"]]
+                        held = (p.values.value, p.values.min_value, p.values.max_value)
+                        t2 = loop.create_task(p.set(val, retries=retries, timeout=TIMEOUT))
+                        await pd.settle()
+                        tx = drain_tx()
+                        words.append(f"S:{retries}:" + pd.enc_val(val))
+                        if t2.done():
+                            e2 = t2.exception()
+                            r = ("exc:" + type(e2).__name__) if e2 is not None else "ret:%d" % int(bool(t2.result()))
+                            obs = {"exc:ValueError": "d:reject", "exc:TypeError": "d:typeerror", "ret:1": "d:noop"}.get(r, "d:other:" + r)
+                        else:
+                            t2.cancel()
+                            await pd.settle()
+                            obs = "d:other:overlapping-call-accepted"
+                        if tx:
+                            obs += "," + ",".join(f"tx:{x}" for x in tx)
+                        steps.append(dict(ev="S", value=val, obs=obs, tx=tx, raised=obs.startswith("d:reject"), held=list(held),
+                                          last_report=list(last), after=p.values.value, overlapping=True))
                     elif ev[0] == "S":
                         val, retries = ev[1], ev[2]
                         p = w.device(label).data[row["name"]]
@@ -496,7 +523,8 @@ async def run_histories(ctx, res, only=None):
                                     res.extra["f7_recorded"] = res.extra.get("f7_recorded", 0) + 1
                                 res.fail("spec", dict(inp, step=si), f"every transmitted set request within the last reported bounds [{lo}, {hi}]",
                                          dict(transmitted=x, reports_during_the_call=s_.get("reports_in_call")),
-                                         "a retry transmits a value outside the bounds the controller reported during the call",
+                                         ("a retry transmits a value outside the bounds the controller reported during the call" if f7 else
+                                          "a retry transmits a value outside the last reported bounds (not the value its call was accepted with?)"),
                                          **(dict(finding="F7") if f7 else {}))
         obs_line = "/".join(s_["obs"] for s_ in rec["steps"][1:])
         if obs_line != rec["model"].split(" | ")[0]:
